@@ -208,6 +208,12 @@ pub struct Report {
 }
 
 pub fn emit_case(out: &mut dyn Write, group: &str, c: &Case, verbose: bool) -> std::io::Result<Report> {
+    emit_case_known(out, group, c, verbose, None)
+}
+
+/// `known`: the key of a recorded known finding this fixed case is expected to exhibit; its
+/// failures are then reported as notes (`KNOWN:<key>`) instead of failures
+pub fn emit_case_known(out: &mut dyn Write, group: &str, c: &Case, verbose: bool, known: Option<&str>) -> std::io::Result<Report> {
     let r = run_case(c);
     let ex = expect(c);
     let mut fails: Vec<String> = vec![];
@@ -488,6 +494,13 @@ pub fn emit_case(out: &mut dyn Write, group: &str, c: &Case, verbose: bool) -> s
         }
         if r.effects_trace.first().map(|e| *e != (0, 0)).unwrap_or(false) {
             fails.push("C16:work-at-source-conversion".into());
+        }
+    }
+
+    if let Some(k) = known {
+        if !fails.is_empty() {
+            notes.push(format!("KNOWN:{} ({})", k, fails.join(";")));
+            fails.clear();
         }
     }
 
@@ -1034,6 +1047,34 @@ pub fn run(out: &mut dyn Write, prop: &str, seed: u64, thorough: bool) -> std::i
                         }
                     }
                 }
+            }
+            // Min(c) with c*threads beyond usize::MAX on sources of known length (the fix: commit)
+            for &c in &[1usize << 62, 1 << 63, usize::MAX / 2 + 7, usize::MAX - 1, usize::MAX] {
+                for &nt in &[0usize, 2, 3, 8] {
+                    for kind in ['v', 'k'] {
+                        for (kinds, term) in [("", TermD::Count), ("M", TermD::CollectVec), ("F", TermD::Reduce(RedD::Add)), ("X", TermD::First)] {
+                            let ops: Vec<OpD> = kinds.chars().map(|k| gen_op(&mut rng, k)).collect();
+                            let input = gen_input(&mut rng, 10, true);
+                            let mut sets = vec![vec![]; ops.len() + 1];
+                            sets[0] = vec![SetD::NtUsize(nt), SetD::CsEnum(ChunkSize::Min(nz(c)))];
+                            let cse = Case { src_kind: kind, input, ops, sets, term, mode: Mode::Free(0), panic_at: None };
+                            emit_case(out, "huge-min", &cse, false)?;
+                            total_c.set(total_c.get() + 1);
+                        }
+                    }
+                }
+            }
+            // the two recorded known findings at the extremes, as fixed cases (they fail fast:
+            // a panic, nothing is allocated)
+            {
+                let input: Vec<u64> = (0..10).map(|i| 100 + i).collect();
+                let mut sets = vec![vec![]; 2];
+                sets[0] = vec![SetD::NtUsize(2), SetD::CsEnum(ChunkSize::Exact(nz(1 << 63)))];
+                let cse = Case { src_kind: 'v', input: input.clone(), ops: vec![OpD::Map { a: 1, b: 0 }], sets: sets.clone(), term: TermD::CollectVec, mode: Mode::Free(0), panic_at: None };
+                emit_case_known(out, "known-extreme", &cse, false, Some("C15 chunk-wrap:known-len-source:c>=2^63"))?;
+                let cse = Case { src_kind: 'u', input, ops: vec![OpD::Filter { k: 2, r: 0 }], sets, term: TermD::CollectVec, mode: Mode::Free(0), panic_at: None };
+                emit_case_known(out, "known-extreme", &cse, false, Some("C15 chunk-alloc:iter-source:c-exceeds-memory"))?;
+                total_c.set(total_c.get() + 2);
             }
             let mut o = base(t);
             o.ctl_share = 2;
